@@ -184,6 +184,7 @@ def gen_l1_contract(rng, idx):
                 m["ret"] = {"p": [["Result", [rt, P("ContractError")]]]}
         if k != "instantiate" and rng.random() < 0.3:
             m["fwd"] = rng.sample(ATTR_POOL_VARIANT, rng.choice([1, 2]))
+            m["fwd_before_msg"] = rng.choice([False, False, True, "all"])
         methods.append(m)
     if rng.random() < 0.4:
         methods.append(gen.simple_method("migrate_it", "migrate", gen_l1_args(rng, gens)))
@@ -221,6 +222,7 @@ def gen_l1_interface(rng, idx):
         m["ret"] = {"p": [["Result", [inner, gen.path("Self", "Error")]]]}
         if rng.random() < 0.3:
             m["fwd"] = rng.sample(ATTR_POOL_VARIANT, 1)
+            m["fwd_before_msg"] = rng.choice([False, True])
         methods.append(m)
     msg_attrs = [[rng.choice(["exec", "query", "sudo"]), rng.choice(ATTR_POOL_TYPE)] for _ in range(rng.choice([0, 0, 1, 2]))]
     it = {"name": "Ifc%d" % idx, "module": "ifc%d" % idx, "assoc": assoc, "methods": methods, "msg_attrs": msg_attrs}
